@@ -66,5 +66,6 @@ V_ENSURES((__CPROVER_return_value == 1) == (ZCK_OK_OLD(zck) && val >= 0)) /*@C20
 V_ENSURES(__CPROVER_return_value == 1 || __CPROVER_return_value == 0) /*@C20.from_int.ret01*/
 V_ENSURES(__CPROVER_return_value != 1 || (*length == V_OLD(*length) + SPEC_CI_ENCLEN(val) && SPEC_CI_LEN(compint, MAX_COMP_SIZE) == SPEC_CI_ENCLEN(val) && SPEC_CI_VAL(compint, SPEC_CI_ENCLEN(val)) == (v_u128)val)) /*@C20.from_int.encoding*/
 V_ENSURES(__CPROVER_return_value == 1 || *length == V_OLD(*length)) /*@C20.from_int.fail_no_advance*/
+V_ENSURES(__CPROVER_return_value != 1 || zck->error_state == V_OLD(zck->error_state)) /*@C12.from_int.success_keeps_error_state*/
 ;
 #endif
